@@ -16,10 +16,27 @@
   PREV nq gate*nq k q1..qk      -> ids selected by `_find_previous_gates`
   SUCC nq gate*nq k q1..qk      -> ids selected by `_find_successive_gates`
   ONQ  nq gate*nq q             -> ids selected by `_gates_on_qubit`
+
+  measurement-aware model (QV/Model/RouterMeas.lean):
+  pform  := N | S v | L k v*k | D k (q v)*k
+  item   := tag meas k q1..qk coll ins reg collK nb b1..bnb pform pform
+  mact   := X k item*k | S l0 l1 | Z
+  MROUTE n ne (a b)*ne nq item*nq nact mact*nact
+      -> entries of `addFlags (mroute n queue actions)` "L" final layout
+         "#" mwf bits "#" edge-guard bits "#" pickCheck(split body of the model's detach, executed)
+         "#" number of detached measurements
+         "#" traceEqB on full entries (body of the model's detach vs executed entries; "-" when a
+             multi-qubit measurement of the body is split into new gate objects)
+  MSTAR n mid nq item*nq        -> entries of `addFlags (mstarRoute …)` "L" layout | ERR
+  FRONT nn v*nn ne (a b)*ne     -> `frontLayer` of the DAG
+  FRONTX m (k q1..qk)*m ke v*ke -> `frontLayer (execAll (mkDag pairs) executed)` "#" legitB
+  entry  := "g tag q.." for gates, "m q.. | coll | reg | collK | basis | p0 | p1" for measurements
 -/
 import QV.Model.Router
 import QV.Model.Blocks
-open QV.Router QV.Blocks
+import QV.Model.RouterMeas
+import QV.Model.TraceEq
+open QV QV.Router QV.Blocks
 
 structure Rd where
   toks : Array String
@@ -66,6 +83,53 @@ def nextAction : P Action := do
     pure (.swap a b)
   | _ => pure .undo
 
+def nextPForm : P PForm := do
+  let c ← nextTok
+  match c with
+  | "S" => pure (.scalar (← nextNat))
+  | "L" =>
+    let k ← nextNat
+    pure (.list (← nextNats k))
+  | "D" =>
+    let k ← nextNat
+    let mut out : List (Nat × Nat) := []
+    for _ in [0:k] do
+      let q ← nextNat
+      let v ← nextNat
+      out := (q, v) :: out
+    pure (.dict out.reverse)
+  | _ => pure .none
+
+def nextItem : P QItem := do
+  let g ← nextGate
+  let coll ← nextNat
+  let ins ← nextNat
+  let reg ← nextNat
+  let collK ← nextNat
+  let nb ← nextNat
+  let basis ← nextNats nb
+  let p0 ← nextPForm
+  let p1 ← nextPForm
+  pure { g := g, coll := coll == 1, ins := ins == 1,
+         md := { reg := reg, collK := collK == 1, basis := basis, p0 := p0, p1 := p1 } }
+
+def nextItems : P (List QItem) := do
+  let k ← nextNat
+  let mut out := []
+  for _ in [0:k] do
+    out := (← nextItem) :: out
+  pure out.reverse
+
+def nextMAction : P MAction := do
+  let c ← nextTok
+  match c with
+  | "X" => pure (.exec (← nextItems))
+  | "S" =>
+    let a ← nextNat
+    let b ← nextNat
+    pure (.swap a b)
+  | _ => pure .undo
+
 def showNats (l : List Nat) : String := " ".intercalate (l.map toString)
 
 def showGate (g : RGate) : String :=
@@ -74,6 +138,25 @@ def showGate (g : RGate) : String :=
 def showGates (gs : List RGate) : String := " , ".intercalate (gs.map showGate)
 
 def bit (b : Bool) : String := if b then "1" else "0"
+
+def showPForm : PForm → String
+  | .none => "N"
+  | .scalar v => s!"S {v}"
+  | .list vs => s!"L {showNats vs}"
+  | .dict kv =>
+    let sorted := kv.mergeSort (fun a b => a.1 ≤ b.1)
+    "D " ++ " ".intercalate (sorted.map fun e => s!"{e.1}:{e.2}")
+
+def showEntry (it : QItem) : String :=
+  if it.g.meas then
+    s!"m {showNats it.g.qs} | {bit it.coll} | {it.md.reg} | {bit it.md.collK} | {showNats it.md.basis} | {showPForm it.md.p0} | {showPForm it.md.p1}"
+  else s!"g {it.g.tag} {showNats it.g.qs}"
+
+def showEntries (l : List QItem) : String := " , ".intercalate (l.map showEntry)
+
+/-- measurement tags are not part of the order check (pieces of a split measurement are new
+    gate objects). -/
+def normMeas (g : RGate) : RGate := if g.meas then { g with tag := measTag } else g
 
 def handle : P String := do
   let cmd ← nextTok
@@ -114,6 +197,59 @@ def handle : P String := do
       let es := ((List.range n).filter (· != mid)).map fun x => (mid, x)
       pure s!"{showGates s.routed} | {showNats s.l2p} # {bit (guardsOk n es (init n) as)}"
     | _, _ => pure "ERR"
+  | "MROUTE" =>
+    let n ← nextNat
+    let ne ← nextNat
+    let mut es : List (Nat × Nat) := []
+    for _ in [0:ne] do
+      let a ← nextNat
+      let b ← nextNat
+      es := (a, b) :: es
+    let q ← nextItems
+    let nact ← nextNat
+    let mut s := minit n
+    let mut wfb := ""
+    let mut guards := ""
+    for _ in [0:nact] do
+      let a ← nextMAction
+      wfb := wfb ++ bit (mwf n s a)
+      guards := guards ++ bit (edgeGuard es s.base a.erase)
+      s := mstep s a
+    let d := detach q
+    let out := addFlags (reattach s d.2)
+    let body := (splitMeas (d.1.map (·.g))).map normMeas
+    let pick := pickCheck body (s.base.executed.map normMeas)
+    let multi := d.1.any fun it => it.g.meas && decide (it.g.qs.length > 1)
+    let tre := if multi then "-" else bit (traceEqB (fun it : QItem => it.g.qs) d.1 s.executed)
+    pure s!"{showEntries out} L {showNats (finalLayout s.base)} # {wfb} # {guards} # {bit pick} # {d.2.length} # {tre}"
+  | "MSTAR" =>
+    let n ← nextNat
+    let mid ← nextNat
+    let q ← nextItems
+    match mstarRoute n mid q, mstarTrace mid (minit n) q with
+    | some out, some as =>
+      pure s!"{showEntries (addFlags out)} L {showNats (finalLayout (mrun (minit n) as).base)}"
+    | _, _ => pure "ERR"
+  | "FRONT" =>
+    let nn ← nextNat
+    let nodes ← nextNats nn
+    let ne ← nextNat
+    let mut es : List (Nat × Nat) := []
+    for _ in [0:ne] do
+      let a ← nextNat
+      let b ← nextNat
+      es := (a, b) :: es
+    pure (showNats (frontLayer ⟨nodes, es.reverse⟩))
+  | "FRONTX" =>
+    let m ← nextNat
+    let mut ps : List (List Nat) := []
+    for _ in [0:m] do
+      let k ← nextNat
+      ps := (← nextNats k) :: ps
+    let ke ← nextNat
+    let ex ← nextNats ke
+    let d := mkDag ps.reverse
+    pure s!"{showNats (frontLayer (execAll d ex))} # {bit (legitB d ex)}"
   | "PICK" =>
     let a ← nextGates
     let b ← nextGates
